@@ -629,8 +629,11 @@ class Exe:
             return p.with_(idx=(simp(p.idx[0] + self._mulc(i, sz)),))
         ct = p.ct
         if isinstance(ct, TArr):
-            # pointer to whole array: index selects element, adds a dim
-            return p.with_(idx=p.idx + (i,), ct=ct.of)
+            # pointer to an array (a row of a multi-dimensional array after decay): moves by whole rows, the type is unchanged;
+            # dereferencing it gives the row, whose own decay then adds the next dimension
+            last = p.idx[-1]
+            new = last + i if isinstance(last, int) and isinstance(i, int) else simp(self._ix(last) + self._ix(i))
+            return p.with_(idx=p.idx[:-1] + (new,))
         # element size scaling when pointee type differs from the object's storage element (char* into typed obj)
         tgt = self.leaf_type(p.obj, p.path) if p.obj.kind != 'string' else None
         scale = 1
